@@ -158,7 +158,7 @@ def aggregate(prop, mod, results, problems, tier, seed, wall, known):
 
 
 def write_replay(prop, v, seed, tier):
-    d = os.path.join(VERIF, 'replays', prop)
+    d = os.path.join(os.environ.get('VERIF_EVIDENCE_DIR') or VERIF, 'replays', prop) if os.environ.get('VERIF_EVIDENCE_DIR') else os.path.join(VERIF, 'replays', prop)
     os.makedirs(d, exist_ok=True)
     slug = re.sub(r'[^A-Za-z0-9_.-]+', '_', v['mech'])[:80]
     path = os.path.join(d, f'{slug}-{stable_hash([v.get("_case"), v.get("msg")])}.json')
@@ -313,8 +313,9 @@ def main(argv=None):
         'wall_s': round(wall, 2),
         'violations': len(unknown),
     }
-    os.makedirs(os.path.join(VERIF, 'evidence'), exist_ok=True)
-    with open(os.path.join(VERIF, 'evidence', f'{prop}.json'), 'w') as f:
+    evdir = os.environ.get('VERIF_EVIDENCE_DIR') or os.path.join(VERIF, 'evidence')
+    os.makedirs(evdir, exist_ok=True)
+    with open(os.path.join(evdir, f'{prop}.json'), 'w') as f:
         json.dump(evidence, f, indent=1, default=repr)
     shutil.rmtree(workdir, ignore_errors=True)
     status = 'held'
